@@ -286,6 +286,9 @@ class Check(object):
     def finish(self):
         os.makedirs(os.path.join(VERIF, 'evidence'), exist_ok=True)
         os.makedirs(os.path.join(VERIF, 'replays'), exist_ok=True)
+        for old in os.listdir(os.path.join(VERIF, 'replays')):        # replays of earlier runs of this check and seed
+            if old.startswith('%s-%d-' % (self.prop, seed())) and old.endswith('.json'):
+                os.remove(os.path.join(VERIF, 'replays', old))
         lines = []
         for key, what in self.known_hit:
             lines.append('KNOWN-FINDING: property=%s %s' % (self.prop, what))
